@@ -55,6 +55,12 @@ func (t *T) Rec(n int) int {
 	return r + local - n*3 + 1
 }
 
+type H struct {
+	O *T
+}
+
+var gT = &T{A: 100}
+
 func dbl(x int) int { return x * 2 }
 func neg(x int) int { return -x }
 
@@ -322,6 +328,9 @@ func c09GenCase(seed int64, idx int) packedCase {
 		fmt.Fprintf(&sb, "\to := &T{A: %d, F: dbl}\n\tshow(o.F(4), apply(o.F, 5), apply(nil, 1), apply(neg, 2))\n\to.F = neg\n\tshow(o.F(4))\n", rng.Intn(9))
 	case 3:
 		fmt.Fprintf(&sb, "\to := &T{A: %d}\n\tshow(o.MV(%d), o.MV(1, 2), o.Rec(%d))\n", rng.Intn(9), rng.Intn(9), rng.Range(1, 40))
+		// a spread slice through a method reached as an attribute of a local, of a field and of a global
+		fmt.Fprintf(&sb, "\txs := []int{%d, %d, %d}\n\tshow(o.MV(2, xs...), o.MV(3, []int{}...), o.MV(4, xs[:1]...))\n", rng.Intn(9), rng.Intn(9), rng.Intn(9))
+		fmt.Fprintf(&sb, "\th := &H{O: o}\n\tshow(h.O.MV(5, xs...), gT.MV(6, xs...))\n\tvar none []int\n\tshow(o.MV(7, none...))\n")
 	}
 	sb.WriteString("}\n")
 	return packedCase{ID: id, Decl: sb.String(), Call: fmt.Sprintf("\thdr(%q)\n\t%sd()\n", id, id)}
@@ -369,7 +378,7 @@ type c09Ill struct {
 	XRets int    `json:"xrets,omitempty"`
 }
 
-const c09IllSetup = `func z0() { }; func r1(a int) int { return a + 1 }; func r2(a int, b int) (int, int) { return a, b }; func v1(a int, xs ...int) int { return a + len(xs) }; type T struct { A int }; func (t *T) M(a int) int { return t.A + a }; t := &T{A: 1}; mv := t.M; probe := 0`
+const c09IllSetup = `func z0() { }; func r1(a int) int { return a + 1 }; func r2(a int, b int) (int, int) { return a, b }; func v1(a int, xs ...int) int { return a + len(xs) }; func v2(k string, n int, xs ...int) int { return n + len(xs) + len(k) }; func v3(a int, b int, c int, xs ...string) int { return a + b + c + len(xs) }; type T struct { A int }; func (t *T) M(a int) int { return t.A + a }; func (t *T) MV2(k string, n int, xs ...int) int { return t.A + n + len(xs) + len(k) }; t := &T{A: 1}; mv := t.M; mv2 := t.MV2; probe := 0`
 
 var c09Ills = []c09Ill{
 	{Name: "too few arguments", Script: "x := r1()"},
@@ -384,6 +393,16 @@ var c09Ills = []c09Ill{
 	{Name: "statement call with too many arguments", Script: "z0(1)"},
 	{Name: "wrong arity inside a loop with live temporaries", Script: "s := 0; for i := 0; i < 3; i++ { s = s + i*r1(i, i) }"},
 	{Name: "wrong arity as an argument of another call", Script: "x := r1(r1())"},
+	{Name: "variadic with one of its two fixed arguments", Script: "x := v2(\"k\")"},
+	{Name: "variadic with one of its two fixed arguments, live locals around", Script: "func w() int { a := 5; b := 6; c := v2(\"k\"); return a*100 + b*10 + c }; x := w()"},
+	{Name: "variadic with one of its two fixed arguments, pending value below", Script: "7; y := v2(\"k\"); y"},
+	{Name: "variadic with two of its three fixed arguments inside an expression", Script: "a := 3; x := a*2 + v3(1, 2) + a"},
+	{Name: "variadic with too few fixed arguments in a loop", Script: "s := 0; for i := 0; i < 3; i++ { s += v2(\"k\") }"},
+	{Name: "variadic method with one of its two fixed arguments", Script: "x := t.MV2(\"k\")"},
+	{Name: "variadic method value with one of its two fixed arguments", Script: "func w2() int { q := 9; r := mv2(\"k\"); return q + r }; x := w2()"},
+	{Name: "host: variadic with one of its two fixed arguments", Func: "main.v2", NArgs: 1, XRets: 1},
+	{Name: "host: variadic with two of its three fixed arguments", Func: "main.v3", NArgs: 2, XRets: 1},
+	{Name: "host: variadic method value with one of its two fixed arguments", Func: "main.mv2", NArgs: 1, XRets: 1},
 	{Name: "host: too few arguments", Func: "main.r1", NArgs: 0, XRets: 1},
 	{Name: "host: too many arguments", Func: "main.r1", NArgs: 3, XRets: 1},
 	{Name: "host: more results than yielded", Func: "main.r1", NArgs: 1, XRets: 2},
